@@ -130,6 +130,21 @@ func init() {
 			c09Run(tier, idx, r)
 			r.failFilter = nil
 		}})
+		// every builtin member and index operation at the boundary arguments of C18's alphabet
+		// (including long non-ASCII strings): crash/wedge oracle only
+		crashOnly := func(run func(string, int, *Result)) func(string, int, *Result) {
+			return func(tier string, idx int, r *Result) {
+				r.failFilter = func(class string) bool {
+					return strings.HasPrefix(class, "HOST-PANIC") || strings.HasPrefix(class, "HANG") || strings.HasPrefix(class, "DEADLOCK") || strings.HasPrefix(class, "HARNESS")
+				}
+				run(tier, idx, r)
+				r.failFilter = nil
+			}
+		}
+		nMembers := func(tier string) int { return len(c18Cases(tier)) }
+		c.Scenarios = append(c.Scenarios,
+			Scenario{Name: "builtin-members-direct", Count: nMembers, Run: crashOnly(c18Direct)},
+			Scenario{Name: "builtin-members-in-programs", Count: func(tier string) int { return 2 * nMembers(tier) }, Run: crashOnly(c18Prog)})
 		return c
 	})
 	register("C04", func() *Check {
